@@ -1,4 +1,5 @@
 //! C12: equality and ordering are coherent (scalar and small-list clauses).
+use crate::av;
 use crate::kproof;
 use crate::util::*;
 use blots_core::heap::*;
@@ -13,15 +14,15 @@ kproof!(noerr, 3, fn c12_q_num_num_trichotomy() {
     let h = heap.borrow();
     let x = Value::Number(a);
     let y = Value::Number(b);
-    let eq = x.equals(&y, &h).unwrap();
-    let cmp = x.compare(&y, &h).unwrap();
+    let eq = oka(x.equals(&y, &h));
+    let cmp = oka(x.compare(&y, &h));
     // exactly one of <, ==, > ; equals agrees with compare; antisymmetry
     assert!(cmp.is_some());
     assert!(eq == (cmp == Some(Ordering::Equal)));
-    let rev = y.compare(&x, &h).unwrap();
+    let rev = oka(y.compare(&x, &h));
     assert!(rev == cmp.map(|o| o.reverse()));
-    assert!(y.equals(&x, &h).unwrap() == eq);
-    assert!(x.equals(&x, &h).unwrap());
+    assert!(oka(y.equals(&x, &h)) == eq);
+    assert!(oka(x.equals(&x, &h)));
     kani::cover!(true, "reach-end");
     drop(h);
     std::mem::forget(heap);
@@ -35,8 +36,8 @@ kproof!(noerr, 3, fn c12_q_num_transitivity() {
     let heap = arena::heap();
     let h = heap.borrow();
     let (x, y, z) = (Value::Number(a), Value::Number(b), Value::Number(c));
-    let lt = |p: &Value, q: &Value| p.compare(q, &h).unwrap() == Some(Ordering::Less);
-    let eq = |p: &Value, q: &Value| p.equals(q, &h).unwrap();
+    let lt = |p: &Value, q: &Value| oka(p.compare(q, &h)) == Some(Ordering::Less);
+    let eq = |p: &Value, q: &Value| oka(p.equals(q, &h));
     if lt(&x, &y) && lt(&y, &z) {
         assert!(lt(&x, &z));
     }
@@ -60,16 +61,201 @@ kproof!(noerr, 3, fn c12_q_mixed_scalars_never_equal_never_ordered() {
     let i: usize = kani::any();
     let j: usize = kani::any();
     kani::assume(i < 3 && j < 3 && i != j);
-    assert!(!vals[i].equals(&vals[j], &h).unwrap());
-    assert!(vals[i].compare(&vals[j], &h).unwrap().is_none());
+    assert!(!oka(vals[i].equals(&vals[j], &h)));
+    assert!(oka(vals[i].compare(&vals[j], &h)).is_none());
     // null is equal to itself and unordered; bools: false < true
-    assert!(Value::Null.equals(&Value::Null, &h).unwrap());
-    assert!(Value::Null.compare(&Value::Null, &h).unwrap().is_none());
+    assert!(oka(Value::Null.equals(&Value::Null, &h)));
+    assert!(oka(Value::Null.compare(&Value::Null, &h)).is_none());
     let c: bool = kani::any();
-    let bc = Value::Bool(b).compare(&Value::Bool(c), &h).unwrap();
+    let bc = oka(Value::Bool(b).compare(&Value::Bool(c), &h));
     assert!(bc == Some(if b == c { Ordering::Equal } else if !b { Ordering::Less } else { Ordering::Greater }));
-    assert!(Value::Bool(b).equals(&Value::Bool(c), &h).unwrap() == (b == c));
+    assert!(oka(Value::Bool(b).equals(&Value::Bool(c), &h)) == (b == c));
     kani::cover!(true, "reach-end");
     drop(h);
+    std::mem::forget(heap);
+});
+
+// ---------------------------------------------------------------------------------------------
+// the ten observables of the statement: six dot operators (through the evaluator) and the four
+// unchecked built-ins, against Value::compare / Value::equals' specification
+use crate::c14::call_bi;
+use blots_core::ast::*;
+use blots_core::expressions::evaluate_ast;
+use blots_core::functions::BuiltInFunction as B;
+
+/// numbers: each dot operator returns exactly the IEEE relation (no NaN), u* agree
+kproof!(noerr_nocall, 3, fn c12_q_dot_ops_numbers() {
+    let a: f64 = kani::any();
+    let b: f64 = kani::any();
+    kani::assume(!a.is_nan() && !b.is_nan());
+    let heap = arena::heap();
+    let ops = [BinaryOp::DotEqual, BinaryOp::DotNotEqual, BinaryOp::DotLess, BinaryOp::DotLessEq, BinaryOp::DotGreater, BinaryOp::DotGreaterEq];
+    let want = [a == b, a != b, a < b, a <= b, a > b, a >= b];
+    let mut i = 0;
+    while i < 6 {
+        let e = arena::binop(ops[i], Expr::Number(a), Expr::Number(b));
+        match evaluate_ast(&e, heap.clone(), arena::env(), 0, src()) {
+            Ok(v) => assert!(same_value(v, Value::Bool(want[i]))),
+            Err(_) => panic!("dot operator failed on two numbers"),
+        }
+        std::mem::forget(e);
+        i += 1;
+    }
+    kani::cover!(a == 0.0 && b == 0.0 && a.to_bits() != b.to_bits(), "reach 0.0 vs -0.0");
+    std::mem::forget(heap);
+});
+kproof!(noerr, 3, fn c12_q_unchecked_builtins_numbers() {
+    let a: f64 = kani::any();
+    let b: f64 = kani::any();
+    kani::assume(!a.is_nan() && !b.is_nan());
+    let heap = arena::heap();
+    let (x, y) = (Value::Number(a), Value::Number(b));
+    assert!(same_value(ok(call_bi(B::Ugt, av![x, y], &heap)), Value::Bool(a > b)));
+    assert!(same_value(ok(call_bi(B::Ult, av![x, y], &heap)), Value::Bool(a < b)));
+    assert!(same_value(ok(call_bi(B::Ugte, av![x, y], &heap)), Value::Bool(a >= b)));
+    assert!(same_value(ok(call_bi(B::Ulte, av![x, y], &heap)), Value::Bool(a <= b)));
+    kani::cover!(a == 0.0 && b == 0.0 && a.to_bits() != b.to_bits(), "reach 0.0 vs -0.0");
+    std::mem::forget(heap);
+});
+/// unordered or different types: .== false / .!= true (null .== null true), the four orderings
+/// fail, the four unchecked built-ins return false
+kproof!(cut_nocall, 3, fn c12_q_dot_ops_unordered_types_fail() {
+    let a: f64 = kani::any();
+    let b: bool = kani::any();
+    kani::cover!(true, "reach-call");
+    let heap = arena::heap();
+    let ords = [BinaryOp::DotLess, BinaryOp::DotLessEq, BinaryOp::DotGreater, BinaryOp::DotGreaterEq];
+    let mut i = 0;
+    while i < 4 {
+        let e1 = arena::binop(ords[i], Expr::Null, Expr::Null);
+        assert!(evaluate_ast(&e1, heap.clone(), arena::env(), 0, src()).is_err());
+        let e2 = arena::binop(ords[i], Expr::Number(a), Expr::Bool(b));
+        assert!(evaluate_ast(&e2, heap.clone(), arena::env(), 0, src()).is_err());
+        let e3 = arena::binop(ords[i], Expr::Bool(b), Expr::Null);
+        assert!(evaluate_ast(&e3, heap.clone(), arena::env(), 0, src()).is_err());
+        std::mem::forget((e1, e2, e3));
+        i += 1;
+    }
+    std::mem::forget(heap);
+});
+kproof!(noerr_nocall, 3, fn c12_q_dot_eq_mixed_types() {
+    let a: f64 = kani::any();
+    let b: bool = kani::any();
+    let heap = arena::heap();
+    let pairs = [(Expr::Null, Expr::Null, true), (Expr::Number(a), Expr::Bool(b), false), (Expr::Bool(b), Expr::Null, false), (Expr::Null, Expr::Number(a), false)];
+    for (l, r, want) in pairs {
+        let e = arena::binop(BinaryOp::DotEqual, l.clone(), r.clone());
+        match evaluate_ast(&e, heap.clone(), arena::env(), 0, src()) {
+            Ok(v) => assert!(same_value(v, Value::Bool(want))),
+            Err(_) => panic!(".== failed"),
+        }
+        let e2 = arena::binop(BinaryOp::DotNotEqual, l, r);
+        match evaluate_ast(&e2, heap.clone(), arena::env(), 0, src()) {
+            Ok(v) => assert!(same_value(v, Value::Bool(!want))),
+            Err(_) => panic!(".!= failed"),
+        }
+        std::mem::forget((e, e2));
+    }
+    kani::cover!(true, "reach-end");
+    std::mem::forget(heap);
+});
+kproof!(noerr, 3, fn c12_t_unchecked_builtins_unordered_false() {
+    let a: f64 = kani::any();
+    let b: bool = kani::any();
+    let heap = arena::heap();
+    let fs = [B::Ugt, B::Ult, B::Ugte, B::Ulte];
+    let mut i = 0;
+    while i < 4 {
+        assert!(same_value(ok(call_bi(fs[i], av![Value::Null, Value::Null], &heap)), Value::Bool(false)));
+        assert!(same_value(ok(call_bi(fs[i], av![Value::Number(a), Value::Bool(b)], &heap)), Value::Bool(false)));
+        assert!(same_value(ok(call_bi(fs[i], av![Value::Number(a), Value::Number(f64::NAN)], &heap)), Value::Bool(false)));
+        i += 1;
+    }
+    kani::cover!(true, "reach-end");
+    std::mem::forget(heap);
+});
+
+// ---------------------------------------------------------------------------------------------
+// lists: lexicographic, proper prefix first; equality element-wise
+fn cmp_num(a: f64, b: f64) -> Ordering {
+    if a < b { Ordering::Less } else if a > b { Ordering::Greater } else { Ordering::Equal }
+}
+kproof!(noerr, 5, fn c12_q_list2_vs_list2_lexicographic() {
+    let (a0, a1, b0, b1): (f64, f64, f64, f64) = (kani::any(), kani::any(), kani::any(), kani::any());
+    kani::assume(!a0.is_nan() && !a1.is_nan() && !b0.is_nan() && !b1.is_nan());
+    let l = arena::list_cell(vec![Value::Number(a0), Value::Number(a1)]);
+    let m = arena::list_cell(vec![Value::Number(b0), Value::Number(b1)]);
+    let heap = arena::heap();
+    let h = heap.borrow();
+    let want = match cmp_num(a0, b0) { Ordering::Equal => cmp_num(a1, b1), o => o };
+    assert!(oka(l.compare(&m, &h)) == Some(want));
+    assert!(oka(m.compare(&l, &h)) == Some(want.reverse()));
+    assert!(oka(l.equals(&m, &h)) == (want == Ordering::Equal));
+    assert!(oka(l.equals(&l, &h)));
+    kani::cover!(want == Ordering::Equal, "reach equal lists");
+    drop(h);
+    std::mem::forget(heap);
+});
+kproof!(noerr, 5, fn c12_q_list_prefix_first() {
+    let (a0, a1, b0): (f64, f64, f64) = (kani::any(), kani::any(), kani::any());
+    kani::assume(!a0.is_nan() && !a1.is_nan() && !b0.is_nan());
+    let l = arena::list_cell(vec![Value::Number(a0), Value::Number(a1)]);
+    let m = arena::list_cell(vec![Value::Number(b0)]);
+    let e = arena::list_cell(vec![]);
+    let heap = arena::heap();
+    let h = heap.borrow();
+    // [b0] vs [a0, a1]: decided by the first element, a proper prefix is smaller
+    let want = match cmp_num(b0, a0) { Ordering::Equal => Ordering::Less, o => o };
+    assert!(oka(m.compare(&l, &h)) == Some(want));
+    assert!(oka(l.compare(&m, &h)) == Some(want.reverse()));
+    assert!(!oka(l.equals(&m, &h)));
+    // the empty list is a proper prefix of every non-empty list, and equal to itself
+    assert!(oka(e.compare(&m, &h)) == Some(Ordering::Less));
+    assert!(oka(m.compare(&e, &h)) == Some(Ordering::Greater));
+    assert!(oka(e.compare(&e, &h)) == Some(Ordering::Equal));
+    assert!(oka(e.equals(&e, &h)) && !oka(e.equals(&m, &h)));
+    // a list and a number are neither equal nor ordered
+    assert!(!oka(l.equals(&Value::Number(a0), &h)));
+    assert!(oka(l.compare(&Value::Number(a0), &h)).is_none());
+    kani::cover!(b0 == a0, "reach the prefix case");
+    drop(h);
+    std::mem::forget(heap);
+});
+kproof!(noerr, 5, fn c12_t_list1_transitivity() {
+    let (a, b, c): (f64, f64, f64) = (kani::any(), kani::any(), kani::any());
+    kani::assume(!a.is_nan() && !b.is_nan() && !c.is_nan());
+    let x = arena::list_cell(vec![Value::Number(a)]);
+    let y = arena::list_cell(vec![Value::Number(b)]);
+    let z = arena::list_cell(vec![Value::Number(c)]);
+    let heap = arena::heap();
+    let h = heap.borrow();
+    let lt = |p: &Value, q: &Value| oka(p.compare(q, &h)) == Some(Ordering::Less);
+    let eq = |p: &Value, q: &Value| oka(p.equals(q, &h));
+    if lt(&x, &y) && lt(&y, &z) { assert!(lt(&x, &z)); }
+    if eq(&x, &y) && eq(&y, &z) { assert!(eq(&x, &z)); }
+    assert!(eq(&x, &y) == eq(&y, &x));
+    kani::cover!(true, "reach-end");
+    drop(h);
+    std::mem::forget(heap);
+});
+/// nested list: [[a]] vs [[b]] and the dot operators through the evaluator on list operands
+kproof!(noerr_nocall, 5, fn c12_t_dot_ops_lists_through_evaluator() {
+    let (a0, a1, b0, b1): (f64, f64, f64, f64) = (kani::any(), kani::any(), kani::any(), kani::any());
+    kani::assume(!a0.is_nan() && !a1.is_nan() && !b0.is_nan() && !b1.is_nan());
+    let heap = arena::heap();
+    let want = match cmp_num(a0, b0) { Ordering::Equal => cmp_num(a1, b1), o => o };
+    let ops = [BinaryOp::DotEqual, BinaryOp::DotNotEqual, BinaryOp::DotLess, BinaryOp::DotLessEq, BinaryOp::DotGreater, BinaryOp::DotGreaterEq];
+    let res = [want == Ordering::Equal, want != Ordering::Equal, want == Ordering::Less, want != Ordering::Greater, want == Ordering::Greater, want != Ordering::Less];
+    let mut i = 0;
+    while i < 6 {
+        let e = arena::binop(ops[i], arena::list2(Expr::Number(a0), Expr::Number(a1)), arena::list2(Expr::Number(b0), Expr::Number(b1)));
+        match evaluate_ast(&e, heap.clone(), arena::env(), 0, src()) {
+            Ok(v) => assert!(same_value(v, Value::Bool(res[i]))),
+            Err(_) => panic!("dot operator failed on two number lists"),
+        }
+        std::mem::forget(e);
+        i += 1;
+    }
+    kani::cover!(true, "reach-end");
     std::mem::forget(heap);
 });
